@@ -44,7 +44,8 @@ CLAIMED["C03"] = dict(
           "residual whose root solveHydroShock returns is continuity of the energy flux across the front with plasma at rest ahead, in all "
           "three cases of the case split (loop contract for the bracket search); centre-frame v+ is the Lorentz addition; detonation front is "
           "undisturbed; efficiencyFactor integrates xi^2 v^2 g^2 w of the same right-hand side with prefactor 4/(vw^3 w(Tn) alpha_n), rarefaction "
-          "part with low-phase enthalpy and minus sign; template _dxiAndWdv and its event are the constant-sound-speed versions."),
+          "part with low-phase enthalpy and minus sign; template _dxiAndWdv and its event are the constant-sound-speed versions."
+          " Template model: efficiencyFactor (w+ = (T+/Tn)^mu, w- from energy-flux continuity, shock part iff vw<vJ from mu(vw,v+), rarefaction part iff vw>cb with minus sign, integrand, prefactor 4/(vw^3 alN)) and integratePlasma (what solve_ivp is given: rhs, span to 1e-10, initial state, front event terminal iff shock wave, rtol/10)."),
     note=COMMON_NOTE + " Not decided: accuracy of solve_ivp and simpson, that the terminal event fires.",
     design="3 (C03)")
 CLAIMED["C05"] = dict(
@@ -52,7 +53,8 @@ CLAIMED["C05"] = dict(
     text=("Every tuple returned by matchDeflagOrHyb(vw) satisfies T+^2(1-v-^2)=T-^2(1-v+^2) and the hybr residual encodes the same relation; "
           "findvwLTE: sentinel 1 only for {shock bracket fails, mismatch at top of window positive, matching not converged}, sentinel 0 iff "
           "mismatch at vMin negative after those guards, otherwise the brentq root of (shock temperature - Tn) on [vMin, vmax] with bracket signs "
-          "and tolerances as stated; the convergence flag is never read before it is written (stale-state frame obligation)."),
+          "and tolerances as stated; the convergence flag is never read before it is written (stale-state frame obligation)."
+          " A path that returns the runaway sentinel without its evidence gets the same obligation (nothing implies it). Root finds are identified by their call site."),
     note=COMMON_NOTE + " Not decided: 'one sign over the whole window' (needs monotonicity of the mismatch), uniqueness of the matching at the root.",
     design="3 (C05)")
 CLAIMED["C06"] = dict(
@@ -61,7 +63,8 @@ CLAIMED["C06"] = dict(
           "bracketed between Tn and the minimiser; findJouguetVelocity: the residual is the numerator of d(v+^2)/dT-, Chapman-Jouguet lemma "
           "(its zero has v-^2=cs^2_low), returned value is v+ there (loop contract for the bracket search); template vJ solves the CJ quadratic "
           "(larger root), detonationVAndT solves the matching quadratic on the weak branch and gives v-=cb at vJ; fastestDeflag/slowestDeton: "
-          "returned value and range flags on every path."),
+          "returned value and range flags on every path."
+          " strongestShock (plasma at rest in front, p+(T+)=p-(TMinHydro), result = solveHydroShock(vw,0,T+) at a converged root, 0 iff not bracketed); minVelocity (root of strongestShock(vw)-Tn on (vBracketLow,vJ), 0 iff not bracketed); Hydrodynamics.__init__ (vJ from findJouguetVelocity, template value only on WallGoError; vMin=max(1e-3,minVelocity()); temperature range (tmin,tmax)*Tn; phase ranges; flags)."),
     note=COMMON_NOTE + " Not decided: 0<v<1, v+<v-, T+>Tn, weak-vs-strong selection by the numerical bracket, monotonicity of T(vw).",
     design="3 (C06)")
 
@@ -83,7 +86,8 @@ CLAIMED["C19"] = dict(
           "run): every stencil row selected on every path (interior, one and two steps from either bound) is exact for all polynomials of degree "
           "<= points-1, all x and all steps h; with bounds the function is never evaluated outside [lo,hi] when hi-lo >= W*h (W=2,4,3,5, and each W "
           "is shown to be least); gradient components/axis selection (also negative and permuted axes, per-variable steps, step from scale and "
-          "epsilon) for 2 and 3 variables; Hessian stencils exact to total degree order+1 with dx_i*dx_j divisor and axis selection."),
+          "epsilon) for 2 and 3 variables; Hessian stencils exact to total degree order+1 with dx_i*dx_j divisor and axis selection."
+          " EffectivePotential.derivT/derivField/deriv2FieldT/deriv2Field2/allSecondDerivatives are run end to end through the real helpers on a generic cubic polynomial potential of two fields and T: each returns exactly the partial derivatives it is named after (axes, scales, slicing, private combined-scales array), and derivT never evaluates at a negative temperature."),
     note=COMMON_NOTE + " Rounding is not modelled ((x+dx)-x == dx exactly). Bounded and labelled as such in the evidence: output shape for array "
          "inputs is checked for length-2 arrays / a (2,2) batch only; 3-variable order-4 gradient uses degree 2 per variable.",
     design="3 (C19)")
@@ -101,7 +105,8 @@ CLAIMED["C01"] = dict(
           "attribute an earlier call could have left behind (stale-by-default pre-state). Frame of wallPressure checked on the AST (only the "
           "two flags are written; collaborator calls inside an allow-list); free energies evaluated inside their table. "
           "findWallVelocityDetonation with a loop contract: every solution comes from solveWall on a step whose ends have pressures <=0 and "
-          ">=0; RUNAWAY only if the pressure was non-positive at every velocity evaluated, including the top of the window."),
+          ">=0; RUNAWAY only if the pressure was non-positive at every velocity evaluated, including the top of the window."
+          " Body of wallPressure under a loop contract (pressures list abstracted by length class 1,2,3,>=4): hydro data returned are those of findHydroBoundaries at the velocity asked; on a converged exit the four outputs are those of ONE evaluation (the last), the exit test held, the flag is the True written at the start; on the iteration-limit exit the flag is False and the pressure the mean of the last (up to four) evaluations. _getNextPressure: chained evaluations with the same boundary data, Aitken point for oscillating pressures, outputs of the last evaluation, err as stated."),
     note=COMMON_NOTE + " Assumed contract of EOM.wallPressure (its inner pressure iteration and Nelder-Mead are not verified): deterministic "
          "function of its arguments and pressAbsErrTol; frame = the two flags. Brackets narrower than the hard-wired 1e-10 are excluded. "
          "helpers.nextStepDeton is an assumed contract (returns a velocity between pos2 and posMax). "
@@ -112,7 +117,8 @@ CLAIMED["C04"] = dict(
     text=("plasmaVelocity returns v with w g^2 v = s1, |v|<1; temperatureProfileEqLHS = K - V + w g^2 v^2 - s2; every (T,v) returned by "
           "findPlasmaProfilePoint after the root find satisfies the T33 balance and v=plasmaVelocity(T), and (lemma) then T30 and T33 including the "
           "out-of-equilibrium parts equal c1, c2; loop contract for the bracket expansion; boundary lemma: (T+,-v+) and (T-,-v-) solve the point "
-          "equations far from the wall (with C02's junction conditions). Known finding F6: the no-root branch returns the minimiser with T>0."),
+          "equations far from the wall (with C02's junction conditions). Known finding F6: the no-root branch returns the minimiser with T>0."
+          " deltaToTmunu (assumed contract of the point equations) is re-discharged here: T30/T33 are the boosted integrals of p^mu p^nu delta f."),
     note=COMMON_NOTE + " Assumed: EffectivePotential.evaluate/derivT are V and dV/dT; envelope theorem for the boundary lemma. Bounded: "
          "findPlasmaProfile's flag <=> all T>0 is checked for 3 grid points (for-loop unrolled).",
     design="3 (C04)")
@@ -121,7 +127,8 @@ CLAIMED["C09"] = dict(
     text=("wallProfile: dPhidz is the exact z-derivative of fields for every field (array and scalar branch), fields is the tanh ansatz; "
           "_intermediatePressureResults: the integrand is sum_f (dV/dphi_f + dVout_f) dphi_f/dz with the profile of the FINAL wall parameters, "
           "dVout = 1/2 sum dof dm^2/dphi Delta00, integrated with weight -dz/dchi, and the returned pressure is that integral; chain-rule lemma: "
-          "at constant T and without Delta00 the integrand is d/dz V(phi(z))."),
+          "at constant T and without Delta00 the integrand is d/dz V(phi(z))."
+          " The weight dz/dchi is the derivative of the position map of Grid and Grid3Scales (callee contract re-discharged here; counter-models are replayed natively)."),
     note=COMMON_NOTE + " Not claimed: numerical equality with V(low)-V(high) (quadrature and finite-difference accuracy). Nelder-Mead by stub "
          "(returns arbitrary parameters). Checked on 2 fields x 2 grid points x 2 particles with elementwise expressions.",
     design="3 (C09)")
@@ -132,7 +139,8 @@ CLAIMED["C12"] = dict(
           "+ dm^2 u_w.ubar/2] with EACH profile differentiated by the mode's own operator (F1 fixed); Liouville and collision terms entry by entry "
           "(T^2 on the row index, intertwiners, multiplier); operator = Liouville + collision, row-major flattening; homogeneous background => "
           "source 0 (spectral); _dfeq = d _feq/dx for both statistics; solveBoltzmannEquations solves one assembled system and reshapes row-major; "
-          "setBackground boosts a deep copy."),
+          "setBackground boosts a deep copy."
+          " EOM.getBoltzmannFiniteDifference works on a deep copy (solver in use untouched), copy switched to finite differences with Cardinal bases, returns the copy's moments."),
     note=COMMON_NOTE + " Bounded in grid size (M=3, N=3; all entries symbolic). findiff's matrix is an arbitrary symbolic matrix. Not decided: "
          "basis independence of the solved deviation for all sizes, FD->spectral convergence, non-singularity of the operator.",
     design="3 (C12)")
@@ -169,9 +177,10 @@ CLAIMED["C15"] = dict(
     text=("The closed forms of the template class are proved against the same junction conditions the general solver is proved against (C02/C03/"
           "C06), specialised to the template EOS w+=wN (T/Tn)^mu, p+=pN+(w+-wN)/mu, w-=psiN wN (T/Tn)^nu: _findTm makes the energy flux equal on both "
           "sides; getVp solves the wall relation on both branches and the alpha(vp,vm) of _shooting is its inverse; wFromAlpha; findHydroBoundaries "
-          "(c1, c2, velocityMid with the template EOS); __init__ definitions of alN, psiN, cb2, cs2, mu, nu, wN, pN; vJ and detonationVAndT in C06."),
-    note=COMMON_NOTE + " Power laws used for symbolic exponents: b^(x+y)=b^x b^y, b^(-x)=1/b^x, (b^x)^y=b^(xy), (ab)^x=a^x b^x with every factor "
-         "assumed positive. Not decided: numerical agreement of the two root finders to tolerance, uniqueness of the physical root, vwLTE/kappa agreement.",
+          "(c1, c2, velocityMid with the template EOS); __init__ definitions of alN, psiN, cb2, cs2, mu, nu, wN, pN; vJ and detonationVAndT in C06."
+          " Also under contract: template findvwLTE (static sentinel exactly when p+(Tn)>p-(Tn) or the vacuum energy of the symmetric phase is non-positive, runaway sentinel reasons, bracketed root of the shooting residual), findMatching (window, bracket, residual, v-=min(cb,vw), alpha+ solves the wall relation, T+ from the enthalpy, T- from _findTm), matchDeflagOrHybInitial, minVelocity, _eqWall (3 nu _eqWall = E - R: entropy-derived vs energy-flux-derived enthalpy ratio), solveAlpha (bracket above 0 and above the vacuum bound, branch choice, tolerances), maxAl.<matching> (shock jump conditions at the front, alpha+ relation, _eqWall form)."),
+    note=COMMON_NOTE + " Power laws used for symbolic exponents: b^(x+y)=b^x b^y, b^(-x)=1/b^x, (b^x)^y=b^(xy), (ab)^x=a^x b^x offered only as a conditional law "
+         "(all factors positive => equal; nothing is assumed about their signs). Not decided: numerical agreement of the two root finders to tolerance, uniqueness of the physical root, vwLTE/kappa agreement.",
     design="3 (C15)")
 CLAIMED["C18"] = dict(
     level="other",
@@ -179,7 +188,8 @@ CLAIMED["C18"] = dict(
           "(scalar, (2,), (1,2)), 1- and 2-component functions, all 16 mode pairs, spline and function uninterpreted: evaluate returns the input "
           "shape with S(x) inside and exactly the mode's prescription outside (ERROR raises ValueError), derivative follows the same rule entry by "
           "entry, non-finite rows are dropped individually, setExtrapolationType rebuilds the spline from the same table with extrapolation iff a "
-          "side is FUNCTION from any previous pair, range = min/max of kept points. F4a/b/c found here were fixed in the repository."),
+          "side is FUNCTION from any previous pair, range = min/max of kept points. F4a/b/c found here were fixed in the repository."
+          " _interpolate with the real _dropBadPoints inlined (4-row tables, every pattern of non-finite rows leaving >= 2 rows): table, spline, derivative splines and reported range are those of the kept rows."),
     note="Bound: array length <= 2, rank <= 2, components <= 2. Not decided: spline accuracy, adaptive updates, extendInterpolationTable "
          "(np.arange with symbolic bounds), file round trip.",
     design="3 (C18)")
@@ -192,7 +202,8 @@ CLAIMED["C07"] = dict(
           "alpha; Hydrodynamics vpvmAndvpovm, matchDeton, matchDeflagOrHyb (both modes), temperature mappings, findHydroBoundaries (c1,c2: 4), shockDE; "
           "template __init__ (alN, psiN, cb2, cs2, mu, nu dimensionless; wN, pN, epsilon pressures), vJ, getVp, _findTm, boundary constants; EOM "
           "plasmaVelocity, T33 balance, wallProfile (field, field/length), _updateGrid (lengths), the initial wall 5/Tn, and the bounds handed to "
-          "Nelder-Mead (each has the dimension of the parameter it bounds); WallGoManager.buildGrid (lengths in units of 1/Tn); both grid maps."),
+          "Nelder-Mead (each has the dimension of the parameter it bounds); WallGoManager.buildGrid (lengths in units of 1/Tn); both grid maps."
+          " The wall-action minimiser's stopping rule is unit safe (Nelder-Mead or Powell; gradient-based methods with absolute default tolerances are refused)."),
     note=COMMON_NOTE + " The premise of the property (the potential, masses and EOS are rescaled accordingly) enters as homogeneity of the spec "
          "functions. Declared absolute-tolerance sites are listed in the evidence as assumptions, not proved harmless: xtol=atol on temperature root "
          "finds, pressAbsErrTol=1e-8, |Tn-T+|<1e-10 and xtol=1e-10 in findPlasmaProfilePoint, the 1e50 literal in vpvmAndvpovm. Not covered: "
